@@ -1850,8 +1850,39 @@ fn gen_setup(r: &mut Rng, entry: bool) -> (Vec<String>, FDefs, Option<Vec<String
             let t = g.ty(1);
             fs.push((8 + k + (name % 2), t));
         }
-        lines.push(format!("sdef {name} {}", fs.iter().map(|(f, t)| format!("{f}:{}", enc_ty(t))).collect::<Vec<_>>().join(" ")).trim_end().to_string());
         g.sdefs.push((name, fs));
+    }
+    // cyclic struct definitions, regularly: direct, mutual, through optional / result
+    let mut deser_probe: Option<usize> = None;
+    if g.r.chance(1, 4) {
+        while g.sdefs.len() < 2 {
+            let n = g.sdefs.len();
+            g.sdefs.push((n, vec![]));
+        }
+        let k = g.r.below(g.sdefs.len() as u64) as usize;
+        let k2 = (k + 1) % g.sdefs.len();
+        let t = |n: usize| TypeKind::Struct(ident(n));
+        match g.r.below(5) {
+            0 => g.sdefs[k].1.insert(0, (12, t(k))),
+            1 => {
+                g.sdefs[k].1.push((12, t(k2)));
+                g.sdefs[k2].1.push((13, t(k)));
+            }
+            2 => g.sdefs[k].1.push((12, TypeKind::Optional(Box::new(t(k))))),
+            3 => g.sdefs[k].1.push((12, TypeKind::Result(Box::new(ResultTypeKind { ok: t(k), err: TypeKind::Int })))),
+            _ => {
+                g.sdefs[k].1.push((12, TypeKind::Optional(Box::new(t(k2)))));
+                g.sdefs[k2].1.insert(0, (13, TypeKind::Result(Box::new(ResultTypeKind { ok: TypeKind::Bool, err: t(k) }))));
+            }
+        }
+        if !entry && g.r.chance(2, 3) {
+            // make `Deserialize` of that struct the first thing the program does
+            deser_probe = Some(k);
+            lines[0] = format!("new open:{k}");
+        }
+    }
+    for (name, fs) in &g.sdefs {
+        lines.push(format!("sdef {name} {}", fs.iter().map(|(f, t)| format!("{f}:{}", enc_ty(t))).collect::<Vec<_>>().join(" ")).trim_end().to_string());
     }
     // fact definitions: names 4..6
     let nfd = g.r.below(3) as usize;
@@ -1973,6 +2004,9 @@ fn gen_setup(r: &mut Rng, entry: bool) -> (Vec<String>, FDefs, Option<Vec<String
         };
         entry_req = Some(enc_entry(&e, &mut bt).split(' ').map(|x| x.to_string()).collect());
     }
+    if deser_probe.is_some() {
+        prog.push(Instruction::Deserialize);
+    }
     while prog.len() < target_len {
         if mode < 3 || (mode < 8 && g.r.chance(1, 3)) {
             prog.push(g.any_instr());
@@ -2021,9 +2055,14 @@ fn gen_setup(r: &mut Rng, entry: bool) -> (Vec<String>, FDefs, Option<Vec<String
         6 => 97,
         _ => g.r.below(7) as usize,
     };
+    let ninit = if deser_probe.is_some() { ninit.min(90) } else { ninit };
     for _ in 0..ninit {
         let v = g.value(2);
         lines.push(format!("push {}", enc_value(&v, &mut bt)));
+    }
+    if deser_probe.is_some() {
+        // a payload on top of the stack: tag-like bytes so that optional/result arms are taken
+        lines.push(format!("push y{}", g.r.pick(&[0usize, 1, 2, 3, 4, 6])));
     }
     let fdefs = g.fdefs.clone();
     (lines, fdefs, entry_req)
